@@ -391,6 +391,45 @@ def r193(facts, res):
                % (len(seen), len(ps)))
 
 
+LINE_CARRIERS = ('peekable', 'enumerate', 'into_iter', 'iter', 'collect', 'rev', 'skip', 'by_ref', 'fuse', 'zip', 'take', 'chain', 'copied', 'cloned')
+
+
+def lines_item_lens(b):
+    """dest locals of `str::len(x)` calls where x is an item of a `str::lines()` iterator - directly, through adaptors
+    (peekable, enumerate, ..) or through a collection the lines were collected into"""
+    carriers = set()
+    for bb, t in b.calls_named('lines'):
+        if 'str' in (cpath(t) or ''):
+            carriers.add(t['dest']['l'])
+    if not carriers:
+        return set()
+    changed = True
+    while changed:
+        changed = False
+        for bb in b.reachable():
+            for st in b.blocks[bb]['stmts']:
+                if st['k'] == 'assign' and not st['lhs']['p']:
+                    rv = st['rv']
+                    src = op_place(rv['use']) if 'use' in rv else rv.get('ref')
+                    if src is not None and src['l'] in carriers and st['lhs']['l'] not in carriers:
+                        carriers.add(st['lhs']['l'])
+                        changed = True
+            t = b.term(bb)
+            if t['k'] == 'call' and t['args'] and cname(t) in LINE_CARRIERS and op_local(t['args'][0]) in carriers and t['dest']['l'] not in carriers:
+                carriers.add(t['dest']['l'])
+                changed = True
+    nexts = {t['dest']['l'] for bb, t in b.calls(lambda t: cname(t) in ('next', 'peek', 'next_back', 'last', 'nth')) if t['args'] and b.op_root(t['args'][0], stop_named=False)[0] in carriers}
+    out = set()
+    for bb, t in b.calls_named('len'):
+        c = callee_of(t)
+        if not c or 'core::str' not in c['path'] or not t['args']:
+            continue
+        r, projs, via = b.op_root(t['args'][0], stop_named=False)
+        if r in nexts:
+            out.add(t['dest']['l'])
+    return out
+
+
 def r195(facts, res):
     """`str::lines()` strips "\\r\\n" as well as "\\n".  A byte offset computed as `.. + line.len() + 1` from a line obtained that way
     is right for LF text only: on CR LF text it points at the LF of the terminator, every later line is mislocated, and the
@@ -402,15 +441,7 @@ def r195(facts, res):
         if b.from_expansion:
             continue
         # len() calls on a &str that is the item of a Lines iterator (possibly Peekable / Enumerate ..)
-        seeds = []
-        for bb, t in b.calls_named('len'):
-            c = callee_of(t)
-            if not c or 'core::str' not in c['path'] or not t['args']:
-                continue
-            r, projs, via = b.op_root(t['args'][0], stop_named=False)
-            for db, kind, d in b.defs().get(r, []):
-                if kind == 'call' and cname(d) == 'next' and 'core::str::iter::Lines' in ((callee_of(d) or {}).get('self_ty') or ''):
-                    seeds.append((bb, t['dest']['l']))
+        seeds = [(None, l) for l in sorted(lines_item_lens(b))]
         if not seeds:
             continue
         n += len(seeds)
@@ -667,15 +698,7 @@ def r198(facts, res):
     for b in facts.lib_bodies(['cfgrammar', 'lrlex', 'lrpar', 'lrtable']):
         if b.from_expansion:
             continue
-        seeds = set()
-        for bb, t in b.calls_named('len'):
-            c = callee_of(t)
-            if not c or 'core::str' not in c['path'] or not t['args']:
-                continue
-            r, projs, via = b.op_root(t['args'][0], stop_named=False)
-            for db, kind, d in b.defs().get(r, []):
-                if kind == 'call' and cname(d) == 'next' and 'core::str::iter::Lines' in ((callee_of(d) or {}).get('self_ty') or ''):
-                    seeds.add(t['dest']['l'])
+        seeds = lines_item_lens(b)
         if not seeds:
             continue
         # copies
